@@ -95,6 +95,8 @@ def run(ctx):
     from rules import C17 as c17
     c17.run(ctx.sub("R14.3o", "the raw cell orderer the exporter relies on satisfies the orderer rules of C17"), only=lambda f: f.id.startswith("layout21raw::data::"), floors=False)
     ctx.rule("R14.4", "exporting cannot panic on any raw library")
+    from rules import convrules as cv
+    cv.run(ctx, "R14.7", ("layout21raw::proto::",), {"p": 20, "t": 5, "w": 10})
     for rid, table, side in (("R14.1e", EXPORT, "export"), ("R14.1i", IMPORT, "import")):
         n = 0
         for label, ins, out, rows in table:
